@@ -190,10 +190,13 @@ theorem netflowV9Worker_canonical : Canonical .onMsg Gen.netflowV9Worker := by d
 theorem netflowV5Worker_canonical : Canonical .onMsg Gen.netflowV5Worker := by decide
 /-- obligation: `sFlowWorker` of vflow/sflow.go is canonical (put-back-at-loop-end shape) -/
 theorem sFlowWorker_canonical : Canonical .onYield Gen.sFlowWorker := by decide
-/-- obligation: the four read loops are the read loop the model implements -/
+/-- obligation: the four read loops are the read loop the model implements, and all that follows the loop in
+`run()` is the reader closing its own UDP channel (`canonicalRxTail`: nothing is received or enqueued after the loop) -/
 theorem readloops_canonical :
     Gen.ipfixRun = canonicalRx ∧ Gen.netflowV9Run = canonicalRx ∧ Gen.netflowV5Run = canonicalRx ∧
-    Gen.sFlowRun = canonicalRx := by decide
+    Gen.sFlowRun = canonicalRx ∧
+    Gen.ipfixRunTail = canonicalRxTail ∧ Gen.netflowV9RunTail = canonicalRxTail ∧
+    Gen.netflowV5RunTail = canonicalRxTail ∧ Gen.sFlowRunTail = canonicalRxTail := by decide
 
 /-! ## non-vacuity and the mutants -/
 
